@@ -62,6 +62,10 @@ FIXED = [
  ("F54", "C19", "fix: a forced default namespace in HTML5 output replaces the previous one", "an svg element nested in math content nested in svg content was written without xmlns= (stale default-namespace entry)"),
  ("F55", "C19", "fix: HTML5 serialization of a subtree does not rely on a default namespace it does not write", "HTML5 serialisation of an inner element assumed an inherited default namespace that it does not write on the top element: an svg/math descendant came out without xmlns= (found by `vp check` at VERIF_SEED=1)"),
  ("F56", "C06", "fix: a text node is never consolidated with itself", "insert_before(pi, b) on adjacent text nodes a b c <?pi?> (left over from a consolidation-off phase) with consolidation on merged b into itself and panicked (found by the thorough tier of C06; the mixed-consolidation catalogue was extended to four children so that quick reaches it)"),
+ ("F57", "C02", "fix: only an unprefixed xmlns attribute declares the default namespace", "<a xmlns:p=\"v\" p:xmlns=\"u\"><b/></a>: the attribute p:xmlns was taken for a default namespace declaration (attribute lost, a and b moved into namespace u); reported by a seeding sub-agent as a limitation of the unchanged tree, then generated (local name xmlns in the name pool)"),
+ ("F58", "C03", "fix: reject a prefixed namespace declaration with an empty value", "<a xmlns:p=\"\" p:x=\"1\"/> was accepted, p:x silently became the no-namespace attribute x (undeclared prefix; Namespaces in XML 1.0 'No Prefix Undeclaring')"),
+ ("F59", "C02", "fix: parse_bytes reads the encoding from the XML declaration itself", "parse_bytes of an ISO-8859-1 document whose declaration has white space around '=' (encoding = \"ISO-8859-1\") decoded the bytes as UTF-8 (U+FFFD in the tree); a UTF-8 document without declaration whose content mentions encoding=\"ISO-8859-1\" was decoded as Latin-1; reported by a seeding sub-agent, then generated by the renderer"),
+ ("F60", "C02", "fix: accept any white space after <?xml in the XML declaration", "<?xml followed by TAB / LF / CR instead of a space (<?xml\\nversion=\"1.0\"?><a/>) was rejected; reported by a seeding sub-agent, then generated by the renderer"),
  ("F52b", "C15", "fix: deduplicate_namespaces still drops a repeated default declaration above an attribute of that namespace", "follow-up to the F52 repair, which had become over-cautious: <doc xmlns=\"X\"><a xmlns=\"X\"><b xmlns:p=\"X\" p:attr=\"\"/></a></doc> kept the redundant xmlns=\"X\" on a, which the pinned tree removed (no clause of C15 was violated; noticed because the demonstration of seeded change C15-2 asserts the exact output)"),
  ("F31a", "C06", "fix: create_missing_prefixes returns an error for a document without an element", "create_missing_prefixes panicked on a document without element"),
 ]
